@@ -107,6 +107,12 @@ CHECKS.update({
         "Trusted: the harness owns the only clock the commit logic reads (self-checked). 'About ten seconds' = 11 s with slack.",
         "DESIGN.md 3.3, 4 C18",
     ),
+    "C14": (
+        "exhaustive enumeration of legacy-database configurations, real legacy store -> real migration -> bucket-by-bucket comparison",
+        "Every configuration of the product {subset of 3 bucket ids incl. unicode} x {0,1,3,101 events per bucket} x {no/flat/nested bucket data} x {name absent/given} x {testing/normal profile} x {other profile's legacy file present/absent} (768 cases) is written by the real PeeweeStorage at its default path in a private data dir; the default SqliteStorage is then constructed beside it (triggering the migration) and compared: ids, metadata, multiset of (instant, duration, data) per bucket, legacy file bytes, and a second start.",
+        "Trusted: the working tree's PeeweeStorage as the legacy writer. Legacy files written by other versions are not available offline.",
+        "DESIGN.md 4 C14",
+    ),
 })
 
 NOT_YET = {}
